@@ -3,10 +3,10 @@
 Spec: spec/OCSP.tla (+ OCSP_MC): the decision procedure of ParseResponseForCert(bytes, cert, issuer) transcribed over abstract
 keys/signatures (signer configurations x responder-id form x status x issuer given/nil x issuer self-signed/intermediate x
 cert argument x damaged region), the property's condition "signed by the issuer or by an embedded certificate the issuer
-signed" as a declarative predicate, and the request round trip.  TLC checks exhaustively (3240 configurations) that with an
+signed" as a declarative predicate, and the request round trip.  TLC checks exhaustively (3528 configurations) that with an
 issuer only authorized responses are accepted, that a modification of tbsResponseData / signature / embedded certificate is
 rejected, exactly which authorized responses are still refused, what issuer = nil leaves unchecked, serial matching and field
-round trip; it refutes (documentation) the RFC 6960 OCSPSigning-EKU requirement, which the package does not implement.
+round trip, and that the decision does not depend on identity attributes an impostor copies from the issuer (IdentityIrrelevant, ImpostorRejected: key only); it refutes (documentation) the RFC 6960 OCSPSigning-EKU requirement, which the package does not implement.
 Binding R: every configuration is materialised with real RSA/ECDSA keys and crypto/x509 certificates, ocsp.CreateResponse (a
 harness DER encoder for the byKey form), damaged at DER-field-sampled (quick) or all (thorough) byte positions of the region,
 and parsed by the real code; each acceptance with an issuer is re-judged against the property with crypto/x509."""
@@ -15,7 +15,7 @@ import vlib
 
 def run(ctx):
     ctx.level = "model_checking"
-    ctx.rule = ("cases = all 3240 configurations of OCSP.tla (9 signer configurations x {byName, byKey} x {good, revoked, unknown} x issuer {given, nil} x "
+    ctx.rule = ("cases = all 3528 configurations of OCSP.tla: 288 impersonation configurations (impostor signers {self-signed, delegated by another CA, wrong issuer} whose certificate copies the issuer's subject DN / key identifiers / serial / all of them, x issuer given/nil x self-signed/intermediate x cert argument x {none, tbs}; always in all four PKI flavours) and 3240 base configurations (9 signer configurations x {byName, byKey} x {good, revoked, unknown} x issuer {given, nil} x "
                 "issuer {self-signed root, intermediate} x cert argument {nil, matching serial, other serial} x region {none, tbsResponseData, signature, "
                 "embedded certificate, outer wrapper}); each is materialised in one (quick) / all four (thorough) PKI flavours (RSA-2048; ECDSA P-256; RSA issuer "
                 "+ P-384 responder; P-521 issuer + RSA responder) with rotating template fields (10 revocation reasons, with/without NextUpdate, 0..2 extensions, "
@@ -50,7 +50,7 @@ def run(ctx):
         d = json.load(open(ctx.replay))["violation"]["detail"]
         if isinstance(d, dict) and isinstance(d.get("case"), dict):
             k = d["case"]
-            cases = [t for t in cases if all(t.get(f) == k.get(f) for f in ("signer", "respId", "status", "issuerGiven", "issuerSelfSigned", "certArg", "region"))]
+            cases = [t for t in cases if all(t.get(f) == k.get(f) for f in ("signer", "respId", "status", "issuerGiven", "issuerSelfSigned", "certArg", "region", "imp"))]
     res = ctx.go_test("c48", "TestC48$", cases=cases, timeout=ctx.pick(600, 1800),
                       env={"VERIF_C48_ALLFLAVOURS": ctx.pick(0, 1), "VERIF_C48_EXPLORE": ctx.pick(20000, 400000)})
     ctx.absorb(res)
